@@ -68,6 +68,32 @@ type Model struct {
 	SubEvents []*SubEvent
 	Conns     []*ConnEvent
 	EndedAt   map[int]string // peer -> why the model thinks its session ended when it closed ("", "expiry0", "clean")
+	// session expiry by housekeeping (C15): cid -> step of the "tick clients" that discarded the session for certain
+	Expired map[string][]int
+	// Uncertain lists ticks that fell within ExpiryMargin of a session's expiry boundary (the model cannot tell
+	// whether the session was discarded; checks do not assert such cases)
+	Uncertain []int
+}
+
+// ExpiryMargin is the distance (seconds) a housekeeping tick must keep from an expiry boundary for the model to
+// decide which side it was on: the broker's own clock readings (disconnect time) and the harness's differ by less.
+const ExpiryMargin = 3
+
+// EffectiveExpiry is the statement's rule for how long a disconnected session is kept: the client's interval capped
+// by the server maximum, or the server maximum for an MQTT 3 persistent session.
+func (se *Session) EffectiveExpiry(cfg *Config) int64 {
+	max := int64(^uint32(0))
+	if cfg.MaxSessionExpiry != nil {
+		max = int64(*cfg.MaxSessionExpiry)
+	}
+	if se.Version < 5 {
+		return max
+	}
+	e := int64(se.Expiry)
+	if e > max {
+		e = max
+	}
+	return e
 }
 
 func (m *Model) snapshot() *Snapshot {
@@ -96,7 +122,7 @@ func findObs(s *Step, peer int, typ byte, pid uint16) *refmqtt.Packet {
 
 // Analyze replays the executed history through the reference model.
 func Analyze(r *Run) *Model {
-	m := &Model{Sessions: map[string]*Session{}, Connected: map[string]int{}, Snaps: map[int]*Snapshot{}, StepSnaps: map[int]*Snapshot{}, EndedAt: map[int]string{}}
+	m := &Model{Sessions: map[string]*Session{}, Connected: map[string]int{}, Snaps: map[int]*Snapshot{}, StepSnaps: map[int]*Snapshot{}, EndedAt: map[int]string{}, Expired: map[string][]int{}}
 	pending := map[int]*ConnEvent{} // connections whose CONNACK has not been seen yet (it may arrive in a later step when the handler was parked)
 	complete := func(s *Step, ce *ConnEvent, ack *refmqtt.Packet) {
 		p := r.Peers[ce.Peer]
@@ -180,6 +206,22 @@ func Analyze(r *Run) *Model {
 						if p.Version != 5 || (i < len(ack.ReasonCodes) && ack.ReasonCodes[i] < 0x80) {
 							delete(se.Subs, f.Filter)
 						}
+					}
+				}
+			}
+		case "tick":
+			if a.Tick == "clients" {
+				for cid, se := range m.Sessions {
+					if se.DiscStep < 0 {
+						continue // a connected session is never discarded
+					}
+					boundary := se.DiscAt + se.EffectiveExpiry(&r.Case.Cfg)
+					switch {
+					case s.TickAt > boundary+ExpiryMargin:
+						delete(m.Sessions, cid)
+						m.Expired[cid] = append(m.Expired[cid], s.I)
+					case s.TickAt >= boundary-ExpiryMargin:
+						m.Uncertain = append(m.Uncertain, s.I)
 					}
 				}
 			}
